@@ -50,7 +50,7 @@ func flatten(v interface{}) []Term {
 
 func (c *FnCtx) call(fr *frame, st *State, guard string, site ssa.Instruction, cc *ssa.CallCommon) interface{} {
 	res := c.call0(fr, st, guard, site, cc)
-	if fr.top && fr.con != nil && len(fr.con.AfterCall) > 0 {
+	if fr.top && fr.con != nil && (len(fr.con.AfterCall) > 0 || len(fr.con.Capture) > 0) {
 		name := ""
 		if cc.IsInvoke() {
 			if n, ok := cc.Value.Type().(*types.Named); ok {
@@ -62,6 +62,15 @@ func (c *FnCtx) call(fr *frame, st *State, guard string, site ssa.Instruction, c
 		}
 		if inf := fr.con.AfterCall[name]; inf != nil {
 			c.interfere(fr, st, inf)
+		}
+		for _, cs := range fr.con.Capture[name] {
+			if rs := flatten(res); cs.K < len(rs) {
+				st.names[cs.Name] = rs[cs.K]
+				if fr.con.captured == nil {
+					fr.con.captured = map[string]bool{}
+				}
+				fr.con.captured[cs.Name] = true
+			}
 		}
 	}
 	return res
